@@ -142,7 +142,12 @@ func (n *Node) Execute(ctx context.Context) error {
 			captured <- buf.String()
 		}(n.outputReader)
 	}
-	n.SetError(cmd.Run())
+	runErr := cmd.Run()
+	// The command has ended: from here on there is nothing to signal.
+	n.mu.Lock()
+	n.cmd = nil
+	n.mu.Unlock()
+	n.SetError(runErr)
 	if captured != nil {
 		util.LogErr("close pipe writer", n.outputWriter.Close())
 		ret := strings.TrimSpace(<-captured)
@@ -275,7 +280,10 @@ func (n *Node) signal(sig os.Signal, allowOverride bool) {
 	n.mu.Lock()
 	defer n.mu.Unlock()
 	status := n.data.State.Status
-	if status == NodeStatusRunning && n.cmd != nil {
+	// The first signal marks the node canceled at once, but its command runs
+	// on until the process ends: a repeated signal, and the KILL after the
+	// maximum clean-up time, must still reach it.
+	if (status == NodeStatusRunning || status == NodeStatusCancel) && n.cmd != nil {
 		sigsig := sig
 		if allowOverride && n.data.Step.SignalOnStop != "" {
 			sigsig = unix.SignalNum(n.data.Step.SignalOnStop)
@@ -286,6 +294,13 @@ func (n *Node) signal(sig os.Signal, allowOverride bool) {
 	if status == NodeStatusRunning {
 		n.data.State.Status = NodeStatusCancel
 	}
+}
+
+// isExecuting reports whether the node's command is still running.
+func (n *Node) isExecuting() bool {
+	n.mu.RLock()
+	defer n.mu.RUnlock()
+	return n.cmd != nil
 }
 
 func (n *Node) cancel() {
